@@ -104,10 +104,10 @@ pub fn f1_step<const M: usize, const TOTAL: usize, const CUT: bool>() {
                 // C09: failure changes nothing
                 assert!(ptr_new == ptr_old, "[C09] finger moved by a failed request");
                 // C07/C18: a request that fits succeeds whatever the limit
-                assert!(!fits::<M>(size, align, cap_old), "[C07,C18] a request that fits was refused");
-                kani::cover!(size == 0, "REACH: ZST refused (over-aligned below chunk start)");
-                kani::cover!(NLOG > 1, "REACH: more than one size tried");
-                kani::cover!(limit.is_some() && NLOG == 0, "REACH: limit filtered every candidate");
+                assert!(!fits::<M>(size, align, cap_old), "[C07,C09,C18] a request that fits was refused");
+                kani::cover!(size == 0, "REACH: [err] ZST refused (over-aligned below chunk start)");
+                kani::cover!(NLOG > 1, "REACH: [err] more than one size tried");
+                kani::cover!(limit.is_some() && NLOG == 0, "REACH: [err] limit filtered every candidate");
                 // every request the arena made honours the limit and the alignment floor
                 // (checked at one symbolic log index = at every index)
                 let i: usize = kani::any();
